@@ -22,6 +22,9 @@ package v2
 //@ spec func validProposer(p *ProposerConfig) bool = p != nil && p.MinValue >= 0 && noNullProposerRelays(p) && (forall a string :: in(p.Relays, a) ==> p.Relays[a].MinValue >= 0)
 //@
 //@ // C16: the decoders refuse documents with null entries, so that resolving proposer settings never meets a nil entry
+//@ func (*ExecutionConfig).MarshalJSON
+//@   requires e != nil
+//@
 //@ func (*ExecutionConfig).UnmarshalJSON
 //@   requires e != nil
 //@   loop 1
@@ -166,6 +169,9 @@ package v2
 //@ spec func acctNameOf(account e2wtypes.Account) string
 //@ extern (*regexp.Regexp).MatchString
 //@   ensures result == reMatches(re, s)
+//@ // assumed of the wallet libraries: an account that names its wallet has one
+//@ extern (github.com/wealdtech/go-eth2-wallet-types/v2.AccountWalletProvider).Wallet
+//@   ensures !isnil(result)
 //@ func setAccountName
 //@   trusted
 //@   ensures result == acctNameOf(account)
